@@ -5,7 +5,8 @@ import CJ.Drv.Util
 
 `registrar|<cfg>|<req>|<ext>|<regMethod>|<clientAddr>` where
 * cfg = `auth,hasOverrides,enforce,pctMin,pctPrefix;<min subnets>;<prefix subnets>;<exclusions>`,
-  subnets separated by `/`, each `isV4:base:ones:weight:port:pfx`, pfx = `-` or `id~prefixhex~flush`
+  subnets separated by `/`, each `isV4:base:ones:weight:port:pfx:label`, pfx = `-` or `id~prefixhex~flush`,
+  label = `-` (transport field unset) | n (`"<Name>_Transport"` of pb.TransportType n) | `x` (names no transport)
 * req = `hasPayload,secretLen,v4,v6,transport,disable,source,regAddr,params,forgedResp,forgedBytes,forgedSig`
   params = `-` | `P:id:prefixhex:flush:randomize` (each `-` if absent) | `O:token`; forgedResp = `-` | `v4.port`
 * ext = `sel4,sel6,transportKnown,parseOk,ovSel,unmarshal,port,pctDraw,uNum,uDen,hostDraw,sendOk`
@@ -47,11 +48,14 @@ def parseTriple (s : String) : Option (Int × String × Int) :=
   | [id, pre, fl] => do some (← parseInt id, pre, ← parseInt fl)
   | _ => none
 
+def parseLabel (s : String) : Option TLabel :=
+  if s == "-" then some .unset else if s == "x" then some .unknown else s.toNat?.map .named
+
 def parseSubnet (s : String) : Option Subnet :=
   match s.splitOn ":" with
-  | [v4, base, ones, w, port, pfx] => do
+  | [v4, base, ones, w, port, pfx, lbl] => do
     some { isV4 := ← parseBool v4, base := ← base.toNat?, ones := ← ones.toNat?, weight := ← w.toNat?,
-           port := ← port.toNat?, pfx := ← optField pfx parseTriple }
+           port := ← port.toNat?, pfx := ← optField pfx parseTriple, label := ← parseLabel lbl }
   | _ => none
 
 def parseCfg (s : String) : Option Cfg :=
